@@ -1,7 +1,8 @@
 (** Non-vacuity: concrete configurations and payloads meet the hypotheses of the main theorems,
     and the model computes on them what the theorems say (evaluated by the kernel, vm_compute). *)
 From IsoTp Require Import Base.Prelude Model.Micro Spec.ConfigSpec Spec.Segment Spec.Stream
-  Proofs.TxP Proofs.CoopP Proofs.FcPosP Proofs.RxP Proofs.OnceP Proofs.PacingP Proofs.JustifiedP Proofs.LimP Proofs.LazyRunP.
+  Proofs.TxP Proofs.CoopP Proofs.FcPosP Proofs.RxP Proofs.OnceP Proofs.PacingP Proofs.JustifiedP Proofs.LimP Proofs.LazyRunP
+  Model.Joint Spec.AddrSpec Proofs.AddressP Proofs.WireP Proofs.JointP Proofs.JointProcP.
 
 Definition ex_params (bs : Z) : params :=
   {| p_stmin := 0; p_blocksize := bs; p_override_stmin_ns := None; p_tbs_ns := 1000000000; p_tcr_ns := 1000000000;
@@ -61,3 +62,27 @@ Example ex_lazy :
   (tx_state s, LazyRunP.pulled s, LazyRunP.on_wire s (LazyRunP.wire ex_ca 0 evs), LazyRunP.held ex_ca s, map r_consumed (tx_queue s))
   = (TxTransmitCF, 11, 11, 0, [0]).
 Proof. vm_compute. reflexivity. Qed.
+
+(** the hypotheses of the two-peer theorems (C01_every_interleaving, C10_every_schedule) are met by this
+    pair of configurations, and a full-duplex schedule of user-level calls - A sends 30 bytes then 3 bytes,
+    B sends 10 bytes at the same time, the two process() loops alternate, B's user reads once - comes to
+    rest without error with everything delivered, in order *)
+Example ex_linked : linked ex_ca ex_cb /\ linked ex_cb ex_ca.
+Proof.
+  split; (split; [apply addr_validate_iff; vm_compute; reflexivity|]; split; [reflexivity|]; split; [reflexivity|];
+          intros [|]; vm_compute; split; congruence).
+Qed.
+
+Definition ex_calls : list call :=
+  [CSend SA (list_gen ex_payload) 30 None; CSend SB (list_gen [9;8;7;6;5;4;3;2;1;0]) 10 None; CSend SA (list_gen [1;2;3]) 3 None] ++
+  concat (repeat [CProcess SA 50 true true; CTick SB 1000; CProcess SB 50 true true; CTick SA 1000] 12) ++ [CRecv SB].
+
+Example ex_calls_ok : Forall (call_ok ex_ca ex_cb) ex_calls.
+Proof. unfold ex_calls. repeat (constructor; [vm_compute; try exact I; repeat split; congruence|]). constructor. Qed.
+
+Example ex_joint :
+  let '(n, tr) := crun ex_ca ex_cb (init_net ex_ca ex_cb 0 0) ex_calls in
+  jerr tr = false /\ at_rest n /\
+  sent_of SA tr = [ex_payload; [1; 2; 3]] /\ recv_of SB tr = [ex_payload] /\ rx_queue (nB n) = [[1; 2; 3]] /\
+  sent_of SB tr = [[9;8;7;6;5;4;3;2;1;0]] /\ recv_of SA tr = [] /\ rx_queue (nA n) = [[9;8;7;6;5;4;3;2;1;0]].
+Proof. vm_compute. repeat split; reflexivity. Qed.
